@@ -308,7 +308,7 @@ PROPS["C20"] = Prop(
     family_driver={"err": ("drv_errors", "asan")},
     model_families={"err"},
     generate=lambda rng, tier: G.gen_err(rng, tier),
-    rule="each of the 26 conditions (24 documented errors: builder x6, State setters x8, surface reaction, species "
+    rule="each of the 28 conditions (26 documented errors: builder x7 incl. a re-used builder, State setters x9 incl. a ragged table, surface reaction, species "
          "property, dense / grouped / sparse matrix x8; 2 valid-but-formerly-rejected configurations: tolerance on an "
          "other-phase / parameterised species) injected before each of the 9 positions (quick: first, last and two random) "
          "of a valid set / calculate / solve history, Rosenbrock and backward Euler, row-major + separate LU and grouped "
@@ -318,7 +318,7 @@ PROPS["C20"] = Prop(
                             "ASan + UBSan build"],
     translators=(errcodes2coq.generate,),
     extra_vo=("gen/ErrCodes.v",),
-    oracle_tokens=["ORACLE_REJECTED_CALL_MODIFIED_THE_STATE", "ORACLE_OBJECTS_NOT_USABLE_AFTER_ERROR"],
+    oracle_tokens=["ORACLE_OBJECTS_NOT_USABLE_AFTER_ERROR", "ORACLE_NOT_THE_DOCUMENTED_ERROR"],
     case_timeout=600,
 )
 
